@@ -6,7 +6,7 @@ PLAN = dict(
           "1-4 members) is serialised; String() must succeed, give the identical text for 4 map insertion orders x 3 calls, parse back to the same "
           "value, re-serialise to the same text, and the independent reference parser refsh must read the same value with parameter keys in "
           "ascending order. invalid-values: a value with one injected defect (character outside %x20-7E in a string, malformed token/label/key, "
-          "empty list / inner list, unsupported Go type incl. nil in an inner list) must be refused by String(). strings-exhaustive / "
+          "empty list / inner list, unsupported Go type incl. nil in an inner list) must be refused by String(). history: 2-5 such valid and invalid values serialised one after the other in one process, each step judged like a single value (output must not depend on earlier, in particular refused, calls). strings-exhaustive / "
           "strings-mutated: a header string is given to ParseParameterisedList or ParseListOfLists; wherever refsh (draft-09 grammar subset, "
           "three-valued) is not Unspecified the verdict and, on accept, the value must agree; on every accepted input String() must succeed and "
           "parse(String(parse(s))) == parse(s). Non-trivial: every value case; a string case is non-trivial iff the repository accepted it or the "
@@ -23,6 +23,7 @@ PLAN = dict(
         dict(name="exh", run="^TestStringsExhaustive$", shards=(1, 16), timeout=(300, 900)),
         dict(name="value", run="^(TestPropValueRoundTrip|TestValueEdgeCases|TestCorpus)$", checks=(20000, 300000), shards=(1, 4)),
         dict(name="invalid", run="^(TestPropInvalidValues|TestInvalidEdgeCases)$", checks=(15000, 200000), shards=(1, 2)),
+        dict(name="history", run="^TestPropHistory$", checks=(4000, 100000), shards=(1, 4)),
         dict(name="mutated", run="^TestPropStringsMutated$", checks=(120000, 1000000), shards=(1, 8)),
     ],
     technique=("rapid-generated values and mutated header strings + exhaustive enumeration of all strings up to length 5 (quick) / 6 (thorough) over a "
@@ -33,7 +34,7 @@ PLAN = dict(
                 "and randomly edited serialisations over a wider alphabet. Exploration level: longer inputs, digits other than those drawn, and "
                 "multi-defect values are sampled, not enumerated."),
     level_note=NOTE_BASE,
-    require=[("strings-exhaustive", "pl-accept"), ("strings-exhaustive", "pl-reject"), ("strings-exhaustive", "ll-accept"), ("strings-exhaustive", "ll-reject"),
+    require=[("history", "valid-after-refusal"), ("strings-exhaustive", "pl-accept"), ("strings-exhaustive", "pl-reject"), ("strings-exhaustive", "ll-accept"), ("strings-exhaustive", "ll-reject"),
              ("strings-mutated", "pl-accept"), ("strings-mutated", "pl-reject"), ("strings-mutated", "ll-accept"), ("strings-mutated", "ll-reject"),
              ("strings-mutated", "ll-ref-unspecified"),
              ("value-roundtrip", "item-int-extreme"), ("value-roundtrip", "item-str-escape"), ("value-roundtrip", "item-tok-punct"),
